@@ -17,8 +17,8 @@ CHECKS = {
              "A_j ff_full j i for the area-ratio rule (field); the Stokes double Boole sum is symmetric in the two "
              "patches and A_i stokes(i->j) = A_j stokes(j->i); stokes >= 0; Boole's rule is exact for polynomials of "
              "degree <= 5; cut-off inactive => stokes = stokes_nocut; translation invariance. NOT carried: F <= 1, the "
-             "2.5% closure, everything on the Nusselt branch, invariance under general isometries/scaling (the code's "
-             "1e-3 m segment cut-off makes the result orientation/scale dependent: known finding C05/similarity_cutoff).",
+             "2.5% closure, everything on the Nusselt branch, invariance under general isometries/scaling (measured by the search; the 1e-3 m segment cut-off that broke it "
+             "was repaired by fix cfd1b2b).",
         note=TRUST + "ln/sqrt/abs abstract; Nusselt-branch values enter the model as data; accuracy is C06 (not claimed).",
         technique="Coq proof over ordered field + extracted-model correspondence", ref="5/C05"),
     "C09": dict(
